@@ -15,10 +15,11 @@ From Shexer Require Import Model.EntryC11.
 From Shexer Require Import Model.EntryC10.
 From Shexer Require Import Model.EntryC16.
 From Shexer Require Import Model.EntryC03.
+From Shexer Require Import Model.EntryC05.
 Import ListNotations.
 
 Definition entries : list (str -> table -> option table) :=
-  [entry_c20; entry_pipe; entry_bin64; entry_c17; entry_c11; entry_c10; entry_c16; entry_c03].
+  [entry_c20; entry_pipe; entry_bin64; entry_c17; entry_c11; entry_c10; entry_c16; entry_c03; entry_c05].
 
 Fixpoint dispatch (l : list (str -> table -> option table)) (name : str) (t : table) : table :=
   match l with
